@@ -10,7 +10,7 @@
 //! INPUT <hex,hex,...> | COVERED <name> | ITER <n>
 
 use ckc_contracts::dispatch_gen::{dispatch, NAMES};
-use ckc_contracts::src::native::{RandSrc, ReplaySrc};
+use ckc_contracts::src::native::{RandSrc, ReplaySrc, SweepSrc};
 use std::panic::{self, AssertUnwindSafe};
 use std::sync::Mutex;
 
@@ -129,6 +129,59 @@ fn main() {
             }
             println!("NONE");
             println!("ACCEPTED {}", accepted);
+            println!("OK");
+        }
+        "sweep" => {
+            // exhaustive odometer sweep of the obligation's draws (small types completely, wide
+            // types over a fixed list of structured values); stops at the first failure or when
+            // the number of combinations exceeds the cap
+            let name = &args[2];
+            let cap: f64 = args.get(3).and_then(|s| s.parse().ok()).unwrap_or(2.0e7);
+            let mut s = SweepSrc::new();
+            let mut runs: u64 = 0;
+            loop {
+                s.reset();
+                let r = panic::catch_unwind(AssertUnwindSafe(|| dispatch(name, &mut s)));
+                runs += 1;
+                let mut hit = false;
+                match r {
+                    Ok(false) => {
+                        println!("UNKNOWN {}", name);
+                        std::process::exit(2);
+                    }
+                    Ok(true) => {
+                        if !s.rejected && !s.failed.is_empty() {
+                            for f in &s.failed {
+                                println!("FAILED {}", f);
+                            }
+                            hit = true;
+                        }
+                    }
+                    Err(_) => {
+                        let m = LAST_PANIC.lock().unwrap().take().unwrap_or_default();
+                        if !s.rejected {
+                            println!("PANIC {}", m.replace('\n', " "));
+                            hit = true;
+                        }
+                    }
+                }
+                if hit {
+                    println!("INPUT {}", vecs_to_hex(&s.rec));
+                    println!("ITER {}", runs);
+                    println!("OK");
+                    return;
+                }
+                if s.size() > cap {
+                    println!("TOOBIG {}", s.size());
+                    println!("OK");
+                    return;
+                }
+                if !s.advance() {
+                    break;
+                }
+            }
+            println!("NONE");
+            println!("SWEPT {}", runs);
             println!("OK");
         }
         _ => {
